@@ -436,3 +436,39 @@ def render(n, depth=0):
     if k == "ref":
         return "<B%d.%d>" % (n["b"], n["i"])
     return "<%s>" % k
+
+
+def slot_table(prog):
+    """(record, field) -> set of function names stored there anywhere in the
+    program (designated initialisers, base-class aggregate initialisers,
+    plain assignments)."""
+    tab = {}
+
+    def fnval(v):
+        v = strip(v)
+        if isinstance(v, dict) and v.get("k") == "addr":
+            v = strip(v["e"])
+        if isinstance(v, dict) and v.get("k") == "fn":
+            return v["n"]
+        return None
+
+    def scan(n, owner):
+        for x in walk(n):
+            if x.get("k") == "init" and x.get("r") and not x.get("pd"):
+                for e in x.get("elts", []):
+                    f = fnval(e.get("v"))
+                    if f and "f" in e:
+                        tab.setdefault((x["r"], e["f"]), set()).add((f, owner))
+            elif x.get("k") == "asg" and x.get("op") == "=":
+                f = fnval(x.get("r"))
+                l = x["l"]
+                if f and isinstance(l, dict) and l.get("k") == "mem":
+                    tab.setdefault((l.get("rec"), l["f"]), set()).add((f, owner))
+
+    for fn in prog.all_funcs():
+        for b, i, s in fn.all_stmts():
+            scan(s, fn.name)
+    for name, lst in prog.globals.items():
+        for tu, g in lst:
+            scan(g.get("init"), "global " + name)
+    return tab
